@@ -182,6 +182,13 @@ def c16b(ctx):
             bad = ub.must_pass([tt], [m_.bb for m_ in mv] + [r_.bb for r_ in rm] + [c_.bb for c_ in cbs_u[-1:]])
             if bad:
                 ctx.fail(o, mv[0], "Policy::unpin can return with the un-pinned key still parked in the Pinned region: nothing ever evicts it")
+    # ... and a key that its owner removed from the storage is forgotten by the policy as well (else it goes on occupying
+    # capacity in the policy's lists and real entries are evicted for it)
+    orb = ctx.touch(prog.body("Policy::on_removed"))
+    lr = orb.calls_to(r"Lru::<K>::remove$")
+    total += len(lr)
+    if not lr or orb.must_pass([0], [x.bb for x in lr]):
+        ctx.fail(o, Site(orb, 0, 0), "Policy::on_removed does not take the key out of the LRU lists on every path: the policy keeps tracking a key that is no longer stored")
     o.sites = total
     if total < 5:
         ctx.fail(o, "(program)", "expected >= 5 eviction decision sites across the policy, found %d" % total)
